@@ -56,6 +56,12 @@ def specs(ck, n, prop, configs):
                 "def workload():\n    return len([coerce(1), coerce('s'), coerce(None), coerce(None, 2.5)])\n")
     pins.append({"name": f"vfsrc_{prop.lower()}_pin_optunion_{ck.seed}", "seed": f"{prop}:pin:8", "style": "plain-import", "configs": configs, "cli": True,
                  "cli_confine": prop == "C16", "literal_source": optunion})
+    # a module that declares a source encoding other than UTF-8 (its bytes happen to be valid UTF-8 as well) and holds non-ASCII text:
+    # the file rewritten by the command must still spell the same constants and comments
+    coded = ("# -*- coding: latin-1 -*-\n# commentaire: d\u00e9j\u00e0 vu\nLABEL = 'caf\u00e9 '\n\n\ndef greet(name, times=1):\n    return LABEL + name * times  # \u00e9t\u00e9\n\n\n"
+             "def workload():\n    return [len(greet('x')), len(greet('y', 2))]\n")
+    pins.append({"name": f"vfsrc_{prop.lower()}_pin_coding_{ck.seed}", "seed": f"{prop}:pin:10", "style": "plain-import", "configs": configs[:2], "cli": True,
+                 "cli_confine": prop == "C16", "literal_source": coded})
     if prop == "C16":
         # (without confinement the applied module cannot be imported - `nodes: List[Node]` inside `class Node` - which no property demands)
         pins.append({"name": f"vfsrc_{prop.lower()}_pin_selfref_{ck.seed}", "seed": f"{prop}:pin:7", "style": "plain-import", "configs": configs, "cli": True,
